@@ -75,7 +75,7 @@ def pytree_part(R):
     chunks = [sessions[i::nw] for i in range(nw)]
     from concurrent.futures import ThreadPoolExecutor
     with ThreadPoolExecutor(nw) as ex:
-        outs = list(ex.map(lambda kc: vf.impl("impl_pytree.py", {"sessions": kc[1], "prelude": kc[0] % 2 == 1}), list(enumerate(chunks))))   # odd workers: after unrelated failing/raising PyTree checks
+        outs = list(ex.map(lambda kc: vf.impl("impl_pytree.py", {"sessions": kc[1], "prelude": kc[0] % 2 == 1}, bg=(kc[0] % 4 == 2)), list(enumerate(chunks))))   # odd workers: after unrelated failing/raising PyTree checks
     impl = [None] * len(sessions)
     for w, o in enumerate(outs):
         for j, r in enumerate(o):
